@@ -129,9 +129,12 @@ impl HeapObject {
         HeapObject::Object(ObjectInstance { parent, fields, methods })
     }
     pub fn evaluate_as_string(&self, heap: &Heap) -> Result<String> {
+        self.evaluate_as_string_on_path(heap, &mut Vec::new())
+    }
+    fn evaluate_as_string_on_path(&self, heap: &Heap, path: &mut Vec<HeapIndex>) -> Result<String> {
         match self {
-            HeapObject::Array(array) => array.evaluate_as_string(heap),
-            HeapObject::Object(object) => object.evaluate_as_string(heap),
+            HeapObject::Array(array) => array.evaluate_as_string_on_path(heap, path),
+            HeapObject::Object(object) => object.evaluate_as_string_on_path(heap, path),
         }
     }
     pub fn size(&self) -> usize {
@@ -200,8 +203,11 @@ impl ArrayInstance {
         Ok(&self.0[index])
     }
     pub fn evaluate_as_string(&self, heap: &Heap) -> Result<String> {
+        self.evaluate_as_string_on_path(heap, &mut Vec::new())
+    }
+    fn evaluate_as_string_on_path(&self, heap: &Heap, path: &mut Vec<HeapIndex>) -> Result<String> {
         let elements = self.0.iter()
-            .map(|element| element.evaluate_as_string(heap))
+            .map(|element| element.evaluate_as_string_on_path(heap, path))
             .collect::<Result<Vec<String>>>()?;
         Ok(format!("[{}]", elements.join(", ")))
     }
@@ -247,9 +253,12 @@ impl ObjectInstance {
             .with_context(|| format!("There is no field named `{}` in object `{}`", name, self))
     }
     pub fn evaluate_as_string(&self, heap: &Heap) -> Result<String> {
+        self.evaluate_as_string_on_path(heap, &mut Vec::new())
+    }
+    fn evaluate_as_string_on_path(&self, heap: &Heap, path: &mut Vec<HeapIndex>) -> Result<String> {
         let parent = match self.parent {
             Pointer::Null => None,
-            parent => Some(parent.evaluate_as_string(heap)?),
+            parent => Some(parent.evaluate_as_string_on_path(heap, path)?),
         };
 
         // Sort fields in lexographical order
@@ -258,7 +267,7 @@ impl ObjectInstance {
 
         let fields = sorted_fields.into_iter()
             .map(|(name, value)| {
-                value.evaluate_as_string(heap).map(|value| format!("{}={}", name, value))
+                value.evaluate_as_string_on_path(heap, path).map(|value| format!("{}={}", name, value))
             })
             .collect::<Result<Vec<String>>>()?;
 
@@ -441,11 +450,21 @@ impl Pointer {
     }
 
     pub fn evaluate_as_string(&self, heap: &Heap) -> Result<String> { // TODO trait candidate
+        self.evaluate_as_string_on_path(heap, &mut Vec::new())
+    }
+    fn evaluate_as_string_on_path(&self, heap: &Heap, path: &mut Vec<HeapIndex>) -> Result<String> {
         match self {
             Pointer::Null => Ok("null".to_owned()),
             Pointer::Integer(i) => Ok(i.to_string()),
             Pointer::Boolean(b) => Ok(b.to_string()),
-            Pointer::Reference(index) => heap.dereference(index)?.evaluate_as_string(heap),
+            Pointer::Reference(index) => {
+                bail_if!(path.contains(index),
+                         "Cannot print a value that contains itself (at heap index `{}`)", index);
+                path.push(*index);
+                let string = heap.dereference(index)?.evaluate_as_string_on_path(heap, path);
+                path.pop();
+                string
+            }
         }
     }
 }
